@@ -426,8 +426,11 @@ class Scores:
         # Example: We want threshold at 70% TPR. If easy_pos_ratio=60%, then we want
         # the threshold at 25% TPR on the remaining 40% hard positives, since
         # 70% - 60% = 10% is 25% of the remaining 40%
+        is_one = np.asarray(tpr) >= 1.0
         tpr = np.maximum(np.asarray(tpr) - self.easy_pos_ratio, 0.0)
         tpr = np.minimum(tpr / self.hard_pos_ratio, 1.0)
+        # Rounding in the rescaling must not turn a target of 100% into less than 100%.
+        tpr = np.maximum(tpr, is_one)
         return self._threshold_at_ratio(self.pos, tpr, False, BinaryLabel.pos, method)
 
     def threshold_at_fnr(self, fnr, *, method: str = "linear"):
@@ -462,8 +465,11 @@ class Scores:
         if len(self.neg) == 0:
             raise ValueError("Cannot set threshold at TNR with no negative values.")
         # See explanation in threshold_at_tpr()
+        is_one = np.asarray(tnr) >= 1.0
         tnr = np.maximum(np.asarray(tnr) - self.easy_neg_ratio, 0.0)
         tnr = np.minimum(tnr / self.hard_neg_ratio, 1.0)
+        # Rounding in the rescaling must not turn a target of 100% into less than 100%.
+        tnr = np.maximum(tnr, is_one)
         return self._threshold_at_ratio(self.neg, tnr, True, BinaryLabel.neg, method)
 
     def threshold_at_fpr(self, fpr, *, method: str = "linear"):
